@@ -3,6 +3,7 @@ package props
 import (
 	"cmp"
 	"encoding/json"
+	"sort"
 
 	"godsverif/core"
 
@@ -323,10 +324,148 @@ func runHeapBoundary(c *core.Ctx, j int) {
 	c.Nontrivial()
 }
 
+// Every arrangement of a small array is loaded with FromJSON and drained: a
+// loader that decides from the document whether it still has to build the heap
+// (already ordered? sorted? short?) is wrong on a handful of arrangements out
+// of tens of thousands, which random documents practically never hit.
+const heapPermCases = 8
+
+func runHeapPerms(c *core.Ctx, j int) {
+	queue := j%2 == 1
+	var base []int
+	switch j / 2 {
+	case 0:
+		base = nil // all arrangements of 0..n-1 for every n <= 7
+	case 1:
+		base = []int{0, 1, 2, 3, 4, 5, 6, 7}
+	default:
+		base = []int{0, 0, 1, 1, 2, 2, 3, 3, 4} // ties
+	}
+	natural := func(a, b int) int { return cmp.Compare(a, b) }
+	name := "BinaryHeap"
+	if queue {
+		name = "PriorityQueue"
+	}
+	count := 0
+	try := func(arr []int) {
+		count++
+		data, _ := json.Marshal(arr)
+		var js jsonAPI
+		var pop func() (int, bool)
+		var push func(int)
+		if queue {
+			q := priorityqueue.NewWith[int](natural)
+			js, pop, push = q, q.Dequeue, q.Enqueue
+		} else {
+			h := binaryheap.NewWith[int](natural)
+			js, pop, push = h, h.Pop, func(v int) { h.Push(v) }
+		}
+		if count%64 == 1 {
+			c.Begin(name, "FromJSON", string(data))
+		}
+		if err := js.FromJSON(data); err != nil {
+			c.Begin(name, "FromJSON", string(data))
+			c.Fail("fromjson", "error", "%s.FromJSON(%s) returned %v", name, data, err)
+		}
+		want := append([]int(nil), arr...)
+		if count%3 == 0 { // a single push after the load must find a sound heap too
+			push(-1)
+			want = append(want, -1)
+		}
+		sort.Ints(want)
+		for i, w := range want {
+			v, ok := pop()
+			if !ok || v != w {
+				c.Begin(name, "FromJSON+drain", string(data))
+				c.Fail("drain", "after-fromjson", "%s loaded from %s: pop #%d = (%d,%v), the contents in order are %v", name, data, i, v, ok, want)
+			}
+		}
+		if _, ok := pop(); ok {
+			c.Begin(name, "FromJSON+drain", string(data))
+			c.Fail("drain", "extra", "%s loaded from %s yields more elements than the document has", name, data)
+		}
+	}
+	var permute func(arr []int, k int)
+	permute = func(arr []int, k int) {
+		if k == len(arr) {
+			try(arr)
+			return
+		}
+		seen := map[int]bool{}
+		for i := k; i < len(arr); i++ {
+			if seen[arr[i]] {
+				continue // arrangements of a multiset: each once
+			}
+			seen[arr[i]] = true
+			arr[k], arr[i] = arr[i], arr[k]
+			permute(arr, k+1)
+			arr[k], arr[i] = arr[i], arr[k]
+		}
+	}
+	if j/2 == 3 {
+		// arrays ordered along a WRONG tree: every element is preceded by its
+		// "parent" under an off-by-one reading of the index arithmetic (1-based
+		// parents on a 0-based array, ternary parents, a sorted chain). They look
+		// ordered to a shortcut that asks "is this a heap already?" with the wrong
+		// formula, and are not heaps.
+		parents := []func(i int) int{
+			func(i int) int { return i >> 1 },
+			func(i int) int { return (i - 1) >> 1 }, // the right one: valid heaps, as a control
+			func(i int) int { return (i - 1) / 3 },
+			func(i int) int { return (i - 2) >> 1 },
+			func(i int) int { return i - 1 },
+		}
+		for _, par := range parents {
+			for n := 7; n <= 33; n++ {
+				for rep := 0; rep < 40; rep++ {
+					// assign 0..n-1 along a random linear extension of that tree
+					arr := make([]int, n)
+					done := make([]bool, n)
+					var ready []int
+					ready = append(ready, 0)
+					if par(1) < 0 { // (i-2)>>1 has two roots
+						ready = append(ready, 1)
+					}
+					for v := 0; v < n && len(ready) > 0; v++ {
+						k := c.R.Intn(len(ready))
+						i := ready[k]
+						ready = append(ready[:k], ready[k+1:]...)
+						arr[i], done[i] = v, true
+						for ch := i + 1; ch < n; ch++ {
+							if p := par(ch); p == i && !done[ch] {
+								ready = append(ready, ch)
+							}
+						}
+					}
+					try(arr)
+				}
+			}
+		}
+		c.Count("heap:wrong-tree-ordered-arrays", count)
+	} else if base == nil {
+		for n := 0; n <= 7; n++ {
+			arr := make([]int, n)
+			for i := range arr {
+				arr[i] = i
+			}
+			permute(arr, 0)
+		}
+	} else {
+		permute(append([]int(nil), base...), 0)
+	}
+	c.Count("heap:fromjson-arrangements", count)
+	c.Count("heap:arrangement-cases", 1)
+	c.Nontrivial()
+}
+
 func runC06(c *core.Ctx) {
 	r := c.R
 	if c.Index < heapBoundaryCases {
 		runHeapBoundary(c, c.Index)
+		return
+	}
+	if j := c.Index - heapBoundaryCases; j < heapPermCases {
+		runHeapPerms(c, j)
 		return
 	}
 	c.SetGaps((c.Index/2)%2 == 1)
@@ -462,7 +601,7 @@ func init() {
 		Cases:   func(tier string) int { return tierN(tier, 16000, 400000) },
 		Run:     runC06,
 		ParSkip: func(string) int { return heapBoundaryCases + 16 },
-		Rule: "the first 384 cases sweep the level boundaries: heaps and queues built to 2^k-1, 2^k, 2^k+1, 2^k+2 elements for every k up to 12 with ascending, descending, random and tied values, popped a few times and then driven by single pushes and pops only, then drained. The others: random interleavings of Push(1 value), bulk Push(k values, k in {0,2,3,4,7,8,9,15,16,17}), Pop/Dequeue, Peek, Clear and FromJSON/json.Unmarshal of arrays in arbitrary, ascending or descending order on BinaryHeap and PriorityQueue, " +
+		Rule: "the first 384 cases sweep the level boundaries: heaps and queues built to 2^k-1, 2^k, 2^k+1, 2^k+2 elements for every k up to 12 with ascending, descending, random and tied values, popped a few times and then driven by single pushes and pops only, then drained; the next 6 load EVERY arrangement of 0..n-1 for n <= 8 and of a 9-element multiset with ties through FromJSON and drain it. The others: random interleavings of Push(1 value), bulk Push(k values, k in {0,2,3,4,7,8,9,15,16,17}), Pop/Dequeue, Peek, Clear and FromJSON/json.Unmarshal of arrays in arbitrary, ascending or descending order on BinaryHeap and PriorityQueue, " +
 			"elements {P, unique ID} under five comparators (min, max, all-equal, total, coarsened => ties between distinguishable elements); after every call Size, Peek minimality, Values() and a full iterator walk are compared with a multiset; every case ends with a full drain. " +
 			"One case in 131 is big: 300 to 4200 elements built with bulk pushes across level boundaries, then held at that size by runs of single Pops and Pushes. One case in five runs the same multiset monitor over other element types: interface values holding slices (not comparable with ==), float64 incl. NaN, the infinities and both zeros (identified by their bits), pointers incl. nil, int and string on heaps built by New (built-in order), and structs with an omit-when-empty JSON field loaded by FromJSON from documents with omitted fields and null entries. " +
 			"Every case is non-trivial (>= 20 calls and a drain); distinct = distinct hash of the call list.",
@@ -478,6 +617,9 @@ func init() {
 			f.atLeast("call:PriorityQueue.Clear", 100)
 			f.atLeast("heap:big-hold-phases", 50)
 			f.atLeast("heap:boundary-cases", heapBoundaryCases)
+			f.atLeast("heap:arrangement-cases", heapPermCases)
+			f.atLeast("heap:fromjson-arrangements", 100000)
+			f.atLeast("heap:wrong-tree-ordered-arrays", 10000)
 			for _, n := range heapTypeNames {
 				f.atLeast("heaptypes:"+n, 200)
 			}
